@@ -164,6 +164,47 @@ def run(ctx):
         add(c04.CONFIGS[i % len(c04.CONFIGS)], c04.gen_soup(rng) + ("\n" if i % 2 else "") + c04.gen_soup(rng), "soup")
     check_batch(ctx, items)
     reused_builder(ctx, rng)
+    decoded_text_positions(ctx, rng)
+
+
+def decoded_text_positions(ctx, rng):
+    """Positions refer to the text that is parsed: a str starting with U+FEFF is parsed as it is, and bytes input is
+    parsed as its decoding - nothing may be removed from or inserted into the text before the tokenizer sees it."""
+    default = c04.CONFIG["default"]
+    variants = 0
+    for i in range(200 if ctx.thorough else 40):
+        markup, dn, tags = c04.write_doc(rng, default, c04.gen_doc(rng, default))
+        if not tags:
+            continue
+        cases = [("str with leading U+FEFF", "\ufeff" + markup, {}, None),
+                 ("str with U+FEFF after a newline", "\n\ufeff" + markup, {}, None)]
+        curly = "\u201c\u2014\u2026\u20ac" + markup
+        try:
+            cases.append(("windows-1252 bytes, from_encoding", curly, {"from_encoding": "windows-1252"}, curly.encode("windows-1252")))
+            cases.append(("windows-1252 bytes, from_encoding=cp1252", curly, {"from_encoding": "cp1252"}, curly.encode("windows-1252")))
+        except UnicodeEncodeError:
+            pass
+        try:
+            cases.append(("utf-8 bytes", "\u201c\u00e9" + markup, {}, ("\u201c\u00e9" + markup).encode("utf-8")))
+        except UnicodeEncodeError:
+            pass
+        for kind, text, kw, data in cases:
+            soup = c04.parse_plain(text if data is None else data, kw)
+            if isinstance(soup, str):
+                continue
+            got = tags_of(c04.impl_shape(soup))
+            case = {"markup": text, "kind": kind, "config": "default", "store_line_numbers": None}
+            ctx.case(("decoded", kind, text), nontrivial=len(got) >= 2)
+            variants += 1
+            last = -1
+            for n, p in got:
+                off = None if p is None else offset_of(text, p)
+                if not (off is not None and text[off:off + 1] == "<" and text[off + 1:off + 1 + len(n)].lower() == n and off > last):
+                    ctx.fail(case, "a tag's position is not where its start tag's '<' appears in the parsed text (%s)" % kind,
+                             (n, p), None, tag="decoded-text")
+                    break
+                last = off
+    ctx.count("decoded_text_position_cases", variants)
 
 
 def reused_builder(ctx, rng):
